@@ -155,7 +155,8 @@ def build(repo):
 """)
     # the closure handed to send_modify
     U.lift_closure(F, SEND, "|buf|", "prune_step", "<T>(buf: &mut VecDeque<T>, value: T, this: &Sender<T>)",
-                   subs=[("buf.retain($C);", "tmpl_retain_pred(buf, &value, &mut keep, this);   /* R-chain: closure verified as retain_pred */")],
+                   subs=[("buf.retain($C);", "tmpl_retain_pred(buf, &value, &mut keep, this);   /* R-chain: closure verified as retain_pred */"),
+                         ("(self.filter_predicate)(&value)", "this.filter(&value)   /* R-type */", None)],
                    spec="""
     ensures
         // the queue after a send: the survivors in arrival order, then the new message unless a pending one dominates it
